@@ -21,10 +21,11 @@ func loaderSequences(r *ev.Run, depth int, keyPrefix string, meta, replay bool) 
 	files := []Case{seeds[1], seeds[3], seeds[8], seeds[5], {Name: "text", Data: []byte("plain text, not an image; long enough to look like something: 0123456789 0123456789 0123456789"), Info: seeds[0].Info}}
 	files[4].Info.Format = ""
 	type op struct {
-		load   bool
-		loader int // index into loaders
-		file   int
-		handle int
+		load    bool
+		inspect bool
+		loader  int // index into loaders
+		file    int
+		handle  int
 	}
 	var alphabet []op
 	for f := range files {
@@ -37,6 +38,7 @@ func loaderSequences(r *ev.Run, depth int, keyPrefix string, meta, replay bool) 
 	run := func(seq []op) {
 		seqs++
 		var streams []io.Reader
+		var results []outcome
 		var owner []int
 		var drained []bool
 		var trace []string
@@ -45,7 +47,7 @@ func loaderSequences(r *ev.Run, depth int, keyPrefix string, meta, replay bool) 
 				f, l := &files[o.file], &loaders[o.loader]
 				trace = append(trace, fmt.Sprintf("%s.Load(%s)", l.Name, f.Name))
 				out, st := load(l, bytes.NewReader(f.Data))
-				streams, owner, drained = append(streams, st), append(owner, o.file), append(drained, false)
+				streams, owner, drained, results = append(streams, st), append(owner, o.file), append(drained, false), append(results, out)
 				if out.Panic != "" || st == nil {
 					r.Violate(keyPrefix+"/panic-or-nil-stream", fmt.Sprintf("%s panicked or returned a nil stream (%s) in the sequence %v", l.Name, out.Panic, trace), map[string]interface{}{"sequence": trace}, nil)
 					return
@@ -69,6 +71,13 @@ func loaderSequences(r *ev.Run, depth int, keyPrefix string, meta, replay bool) 
 				}
 				if !ok {
 					r.Violate(keyPrefix+"/result-after-sequence", fmt.Sprintf("%s.Load(%s) returned [%s], expected %s %dx%d/%d icc=%dB, in the sequence %v", l.Name, f.Name, out, in.Format, in.W, in.H, in.Bits, len(in.ICC), trace), map[string]interface{}{"sequence": trace}, nil)
+				}
+			} else if o.inspect {
+				// the ICC bytes handed out by an earlier Load must still be the file's
+				f := &files[owner[o.handle]]
+				trace = append(trace, fmt.Sprintf("inspect(ICC bytes returned by load #%d of %s)", o.handle+1, f.Name))
+				if meta && f.Info.HasICC && !bytes.Equal(results[o.handle].ICC, f.Info.ICC) {
+					r.Violate(keyPrefix+"/icc-changed-later", fmt.Sprintf("the ICC bytes returned by load #%d no longer equal the embedded profile after the sequence %v", o.handle+1, trace), map[string]interface{}{"sequence": trace}, nil)
 				}
 			} else {
 				f := &files[owner[o.handle]]
@@ -96,6 +105,12 @@ func loaderSequences(r *ev.Run, depth int, keyPrefix string, meta, replay bool) 
 		}
 		for _, a := range alphabet {
 			rec(append(append([]op(nil), seq...), a), nStreams+1, drainedMask)
+		}
+		if meta && len(seq) > 0 && len(seq) == depth-1 {
+			// inspections only as the last step (they do not change state)
+			for h := 0; h < nStreams; h++ {
+				run(append(append([]op(nil), seq...), op{inspect: true, handle: h}))
+			}
 		}
 		for h := 0; h < nStreams; h++ {
 			if drainedMask&(1<<uint(h)) == 0 {
